@@ -229,6 +229,48 @@ def real_short(sel: List[int]) -> bool:
     return _real(sel, "short")
 
 
+def _scan_matches(n, descs, mode):
+    d, idx, first = n.find_duplicate_reaction(mode)
+    kept, edup = [], []
+    for i, d_ in enumerate(descs):
+        j = next((k for k in kept if _eqv(descs[k], d_, mode)), None)
+        if j is None:
+            kept.append(i)
+        else:
+            edup.append(i)
+    return idx == edup
+
+
+def rescan_after_edit(sel: List[int]) -> bool:
+    """
+    pre: len(sel) == 3
+    pre: all(0 <= x < 17 for x in sel) and sel[2] < 4
+    post: _ == True
+    """
+    # a network is scanned, the window and type of one reaction are then edited through the API (so that it becomes
+    # a repeat of another one, or stops being one), and the network is scanned again: every mode reports the
+    # duplicates of the network as it is *now*
+    sel = prelude.concrete(sel)
+    with prelude.NoTracing():
+        a, b, m = sel
+        mode = [None, "brief", "minimal", "short"][m % 4]
+        descs = [POOL_DESC[a], POOL_DESC[b]]
+        n = Network()
+        n.reaction_list = [Reaction(list(r), list(p), lo, hi, reaction_type=ReactionType(t), idxfromfile=201 + k) for k, (r, p, lo, hi, t) in enumerate(descs)]
+        if not _scan_matches(n, descs, mode):
+            return False
+        r0, r1 = n.reaction_list
+        # edit: the second reaction takes the window and type of the first
+        r1.temp_min, r1.temp_max, r1.reaction_type = r0.temp_min, r0.temp_max, r0.reaction_type
+        descs = [descs[0], (descs[1][0], descs[1][1], descs[0][2], descs[0][3], descs[0][4])]
+        if not _scan_matches(n, descs, mode):
+            return False
+        # and back to something else
+        r1.temp_max = 12345.0
+        descs = [descs[0], (descs[1][0], descs[1][1], descs[1][2], 12345.0, descs[1][4])]
+        return _scan_matches(n, descs, mode)
+
+
 def eq_laws(i: int, j: int) -> bool:
     """
     pre: 0 <= i < 17 and 0 <= j < 17
